@@ -660,7 +660,15 @@ class Prov:
     def of_local(self, l):
         if l in self._memo:
             return self._memo[l]
-        self._memo[l] = frozenset()  # cycle guard
+        if not hasattr(self, "_inprog"):
+            self._inprog = []
+            self._hit = set()
+        if l in self._inprog:
+            # back edge of a cycle: contributes nothing new, but results computed below the
+            # cycle head are incomplete and must not be cached
+            self._hit.add(l)
+            return frozenset()
+        self._inprog.append(l)
         b = self.body
         roots = set()
         if 1 <= l <= b.arg_count:
@@ -676,8 +684,10 @@ class Prov:
         for (bi, si, kind, payload) in self._refs_of(l):
             roots.add(("outparam", payload.name))
         r = frozenset(roots)
-        self._memo[l] = r
-        # recompute once to resolve cycles (two passes are enough for the small loops involved)
+        self._inprog.pop()
+        self._hit.discard(l)
+        if not self._hit:
+            self._memo[l] = r
         return r
 
     def _refs_of(self, l):
